@@ -54,6 +54,7 @@ def main():
         res["tests_pass"] = " passed" in out and "failed" not in out
         env = dict(os.environ)
         env["VERIF_REPO"] = wt
+        env["VERIF_PARTIAL"] = "1"  # never rewrite the evidence files from a run against a seeded change
         for c in checks:
             t0 = time.time()
             rc, out = sh("./check %s --tier quick" % c, cwd=VERIF, env=env, timeout=3600)
